@@ -120,7 +120,7 @@ fn decode_stream(b: &[u8], name: &str) -> (Vec<Vec<i64>>, bool, bool) {
             }
         };
         let n = n as usize;
-        if n == 0 || n > 1 << 20 {
+        if n == 0 || n > 1 << 26 {
             garbled = true;
             break;
         }
@@ -247,7 +247,7 @@ fn spawn_client(port: u16, tok: i64, beh: Beh, close_after: usize) -> Option<Cli
 }
 
 // quiescence: no new transport event and no new bytes for 150 ms
-fn settle(clients: &[Client]) {
+fn settle(clients: &[Client]) -> bool {
     let mut last = (0usize, 0usize);
     let mut stable_since = Instant::now();
     let t0 = Instant::now();
@@ -257,8 +257,11 @@ fn settle(clients: &[Client]) {
             last = cur;
             stable_since = Instant::now();
         }
-        if stable_since.elapsed() > Duration::from_millis(150) || t0.elapsed() > Duration::from_secs(10) {
-            break;
+        if stable_since.elapsed() > Duration::from_millis(150) {
+            return true;
+        }
+        if t0.elapsed() > Duration::from_secs(10) {
+            return false; // still moving: nothing is claimed about what is pending
         }
         std::thread::sleep(Duration::from_millis(5));
     }
@@ -355,8 +358,8 @@ fn run_wake(rng: &mut rand::rngs::StdRng, trials: usize) -> (Vec<Value>, i64, i6
             }
         }
     }
-    settle(&clients);
-    (finish(ev, clients, &name, next_id, missed, recorder), missed, held)
+    let quiet = settle(&clients);
+    (finish(ev, clients, &name, next_id, missed, recorder, quiet), missed, held)
 }
 
 // wake-race control: 0 idle, 1 armed, 2 transport parked after its receive loop, 3 released
@@ -364,7 +367,11 @@ static ARM: AtomicUsize = AtomicUsize::new(0);
 
 static PORT_SALT: AtomicUsize = AtomicUsize::new(0);
 
-fn run(rng: &mut rand::rngs::StdRng, buffer: Option<usize>, fat: bool) -> Vec<Value> {
+fn run(rng: &mut rand::rngs::StdRng, buffer: Option<usize>, fatn: usize) -> Vec<Value> {
+    // fatn: 0 ordinary frames; 1 = 16 KiB frames + stalled clients (WouldBlock on queued frames); 2 = one reading client and a
+    // few 6 MiB frames, each emitted alone: the frame needs several partial writes with nothing else queued behind it
+    let fat = fatn == 1;
+    let huge = fatn == 2;
     *CUR.lock().unwrap_or_else(|e| e.into_inner()) = None; // earlier exporters are no longer recorded
     LOG.lock().unwrap_or_else(|e| e.into_inner()).clear();
     let port = {
@@ -395,7 +402,7 @@ fn run(rng: &mut rand::rngs::StdRng, buffer: Option<usize>, fat: bool) -> Vec<Va
     wait_for(|g| g.iter().filter(|e| e.0 == "tcp.rx.meta.post").count() >= 1, 3);
     recorder.describe_gauge("m2".into(), Some(Unit::Bytes), "d2".into());
     wait_for(|g| g.iter().filter(|e| e.0 == "tcp.rx.meta.post").count() >= 2, 3);
-    let name: String = if fat { "n".repeat(16 * 1024) } else { "c".to_string() };
+    let name: String = if huge { "n".repeat(6 << 20) } else if fat { "n".repeat(16 * 1024) } else { "c".to_string() };
     let key = Key::from_parts(name.clone(), vec![Label::new("l", "v")]);
     let counter = recorder.register_counter(&key, &Metadata::new("t", Level::INFO, None));
 
@@ -410,7 +417,7 @@ fn run(rng: &mut rand::rngs::StdRng, buffer: Option<usize>, fat: bool) -> Vec<Va
             clients.push(c);
         }
     };
-    let nclients = rng.random_range(1..=3usize);
+    let nclients = if huge { 1 } else { rng.random_range(1..=3usize) };
     for i in 0..nclients {
         let beh = if i == 0 {
             Beh::Reader
@@ -421,8 +428,8 @@ fn run(rng: &mut rand::rngs::StdRng, buffer: Option<usize>, fat: bool) -> Vec<Va
         };
         connect(&mut clients, &mut next_tok, beh, rng);
     }
-    let batch_max = buffer.unwrap_or(8).min(if fat { 4 } else { 64 }).max(1);
-    let rounds = if fat { rng.random_range(120..200usize) } else { rng.random_range(2..=6usize) };
+    let batch_max = if huge { 1 } else { buffer.unwrap_or(8).min(if fat { 4 } else { 64 }).max(1) };
+    let rounds = if huge { 2 } else if fat { rng.random_range(120..200usize) } else { rng.random_range(2..=6usize) };
     let mut next_id = 1i64;
     let mut missed_deadline = 0i64;
     for r in 0..rounds {
@@ -449,7 +456,7 @@ fn run(rng: &mut rand::rngs::StdRng, buffer: Option<usize>, fat: bool) -> Vec<Va
             }
             std::thread::sleep(Duration::from_millis(1));
         }
-        if !fat && r + 1 < rounds {
+        if !fat && !huge && r + 1 < rounds {
             match rng.random_range(0..6) {
                 0 if clients.len() < 4 => connect(&mut clients, &mut next_tok, [Beh::Reader, Beh::Closer][rng.random_range(0..2)], rng),
                 1 => {
@@ -472,11 +479,11 @@ fn run(rng: &mut rand::rngs::StdRng, buffer: Option<usize>, fat: bool) -> Vec<Va
     for c in clients.iter() {
         c.release.store(true, Ordering::Relaxed);
     }
-    settle(&clients);
-    finish(ev, clients, &name, next_id, missed_deadline, recorder)
+    let quiet = settle(&clients);
+    finish(ev, clients, &name, next_id, missed_deadline, recorder, quiet)
 }
 
-fn finish(mut ev: Vec<Value>, mut clients: Vec<Client>, name: &str, next_id: i64, missed_deadline: i64, recorder: metrics_exporter_tcp::TcpRecorder) -> Vec<Value> {
+fn finish(mut ev: Vec<Value>, mut clients: Vec<Client>, name: &str, next_id: i64, missed_deadline: i64, recorder: metrics_exporter_tcp::TcpRecorder, quiet: bool) -> Vec<Value> {
     let tlog: Vec<(String, Vec<i64>)> = LOG.lock().unwrap().clone();
     // clients we closed ourselves before the end did not read everything that was written to them
     let stopped_early: Vec<bool> = clients.iter().map(|c| c.stop.load(Ordering::Relaxed) || c.closed.load(Ordering::Relaxed)).collect();
@@ -506,7 +513,9 @@ fn finish(mut ev: Vec<Value>, mut clients: Vec<Client>, name: &str, next_id: i64
         let b = c.buf.lock().unwrap();
         let (frames, garbled, intact) = decode_stream(&b, name);
         ev.push(json!({"p": 0, "ev": "client.recv", "a": [c.tok], "frames": frames, "garbled": garbled, "intact": intact,
-                       "reader": c.beh == Beh::Reader && !stopped_early[ci], "bytes": b.len()}));
+                       "reader": c.beh == Beh::Reader && !stopped_early[ci],
+                       // connected and reading when everything had come to rest: nothing may still be pending for it
+                       "drained": quiet && !stopped_early[ci], "bytes": b.len()}));
     }
     let primary = clients.first().map_or(false, |c| c.beh == Beh::Reader && !stopped_early[0]);
     ev.push(json!({"p": 0, "ev": "final", "a": [next_id - 1, missed_deadline, primary as i64]}));
@@ -525,7 +534,7 @@ fn main() {
         "none" => None,
         s => Some(s.parse().unwrap()),
     };
-    let fat = args.num("fat", 0usize) == 1;
+    let fat: usize = args.num("fat", 0usize);
     // exporters of earlier runs keep running (their transport threads cannot be stopped): only the newest transport
     // thread - the one that passed `tcp.start.pre` last - is recorded
     metrics::verif::install_global(Some(Box::new(|site, a| {
